@@ -1166,4 +1166,196 @@ theorem endOf_err {b : Addr} {len : Nat} {er : Err} (h : endOf b len = .err er) 
     · cases h
     · simpa using h.symm
 
+/-! ## the writer returns normally (no panic, no divergence) -/
+
+theorem normal_ok {α : Type} (a : α) : (Out.ok a).Normal := by simp [Out.Normal]
+theorem normal_err {α : Type} (e : Err) : (Out.err e : Out α).Normal := by simp [Out.Normal]
+
+theorem writeUdata_normal (e : Endian) (v size : Nat) : (writeUdata e v size).Normal := by
+  unfold writeUdata
+  split
+  · split <;> simp [Out.Normal]
+  · split <;> simp [Out.Normal]
+
+theorem writeAddress_normal (c : Cfg) (a : Addr) : (writeAddress c a).Normal := by
+  cases a with
+  | const v => exact writeUdata_normal _ _ _
+  | symbol s a => exact normal_err _
+
+theorem opSize_normal (c : Cfg) (eo : EOff) (op : XOp) : (opSize c eo op).Normal := by
+  cases op with
+  | convert base =>
+    cases base with
+    | none => exact normal_ok _
+    | some i => simp only [opSize]; split <;> simp [Out.Normal]
+  | _ => exact normal_ok _
+
+theorem exprSize_normal (c : Cfg) (eo : EOff) : ∀ (x : WExpr), (exprSize c eo x).Normal
+  | [] => normal_ok _
+  | op :: rest =>
+    normal_bind _ _ (opSize_normal c eo op) fun _ =>
+      normal_bind _ _ (exprSize_normal c eo rest) fun _ => normal_ok _
+
+theorem writeOp_normal (c : Cfg) (eo : EOff) (uoff : Nat) (op : XOp) : (writeOp c eo uoff op).Normal := by
+  cases op with
+  | raw b => exact normal_ok _
+  | simple o => exact normal_ok _
+  | addr a => exact normal_bind _ _ (writeAddress_normal c a) fun _ => normal_ok _
+  | constu v => exact normal_ok _
+  | call i =>
+    simp only [writeOp]; split
+    · exact normal_err _
+    · exact normal_bind _ _ (writeUdata_normal _ _ _) fun _ => normal_ok _
+  | convert base =>
+    cases base with
+    | none => exact normal_ok _
+    | some i => simp only [writeOp]; split <;> simp [Out.Normal]
+  | callRef i =>
+    simp only [writeOp]; split
+    · exact normal_err _
+    · exact normal_bind _ _ (writeUdata_normal _ _ _) fun _ => normal_ok _
+
+theorem writeOps_normal (c : Cfg) (eo : EOff) (uoff : Nat) : ∀ (x : WExpr), (writeOps c eo uoff x).Normal
+  | [] => normal_ok _
+  | op :: rest =>
+    normal_bind _ _ (writeOp_normal c eo uoff op) fun _ =>
+      normal_bind _ _ (writeOps_normal c eo uoff rest) fun _ => normal_ok _
+
+theorem writeData_normal (k : Kind) (c : Cfg) (eo : EOff) (uoff : Nat) (x : WExpr) :
+    (writeData k c eo uoff x).Normal := by
+  cases k with
+  | rng => exact normal_ok _
+  | loc =>
+    refine normal_bind _ _ (exprSize_normal c eo x) fun size => ?_
+    refine normal_bind _ _ ?_ fun len => ?_
+    · unfold writeExprLen; split
+      · exact writeUdata_normal _ _ _
+      · exact normal_ok _
+    · refine normal_bind _ _ ?_ fun _ => normal_ok _
+      exact normal_bind _ _ (exprSize_normal c eo x) fun _ => writeOps_normal c eo uoff x
+
+theorem writeAddrPair_normal (k : Kind) (c : Cfg) (eo : EOff) (uoff : Nat) (b e : Addr) (x : WExpr) :
+    (writeAddrPair k c eo uoff b e x).Normal :=
+  normal_bind _ _ (writeAddress_normal c b) fun _ =>
+    normal_bind _ _ (writeAddress_normal c e) fun _ =>
+      normal_bind _ _ (writeData_normal k c eo uoff x) fun _ => normal_ok _
+
+theorem endOf_normal (b : Addr) (len : Nat) : (endOf b len).Normal := by
+  cases b <;> simp only [endOf] <;> split <;> simp [Out.Normal]
+
+/-- the only panic in the writer: the marker computation for an address size outside 1..8 with
+overflow checks on -/
+theorem marker_normal (m : Mode) (s : Nat) (h : (1 ≤ s ∧ s ≤ 8) ∨ m = .release) : (marker m s).Normal := by
+  unfold marker
+  split
+  · exact normal_ok _
+  · rcases h with h | h
+    · contradiction
+    · subst h; exact normal_ok _
+
+theorem writeEntryBare_normal (m : Mode) (k : Kind) (c : Cfg) (eo : EOff) (uoff : Nat) (hb : Bool)
+    (x : WEntry) (h : (∀ a, x ≠ .baseAddress a) ∨ (marker m c.addrSize).Normal) :
+    (writeEntryBare m k c eo uoff hb x).Normal := by
+  cases x with
+  | baseAddress a =>
+    have hm : (marker m c.addrSize).Normal := by
+      rcases h with h | h
+      · exact absurd rfl (h a)
+      · exact h
+    exact normal_bind _ _ hm fun _ =>
+      normal_bind _ _ (writeUdata_normal _ _ _) fun _ =>
+        normal_bind _ _ (writeAddress_normal c a) fun _ => normal_ok _
+  | offsetPair b e x =>
+    simp only [writeEntryBare]
+    split
+    · exact normal_err _
+    · split
+      · exact normal_err _
+      · exact normal_bind _ _ (writeUdata_normal _ _ _) fun _ =>
+          normal_bind _ _ (writeUdata_normal _ _ _) fun _ =>
+            normal_bind _ _ (writeData_normal k c eo uoff x) fun _ => normal_ok _
+  | startEnd b e x =>
+    simp only [writeEntryBare]
+    split
+    · exact normal_err _
+    · split
+      · exact normal_err _
+      · exact normal_bind _ _ (writeAddrPair_normal k c eo uoff b e x) fun _ => normal_ok _
+  | startLength b len x =>
+    refine normal_bind _ _ (endOf_normal b len) fun e => ?_
+    split
+    · exact normal_err _
+    · split
+      · exact normal_err _
+      · exact normal_bind _ _ (writeAddrPair_normal k c eo uoff b e x) fun _ => normal_ok _
+  | defaultLocation x => exact normal_err _
+
+theorem writeEntriesBare_normal (m : Mode) (k : Kind) (c : Cfg) (eo : EOff) (uoff : Nat)
+    (hm : (marker m c.addrSize).Normal) : ∀ (l : WList) (hb : Bool),
+    (writeEntriesBare m k c eo uoff hb l).Normal
+  | [], _ =>
+    normal_bind _ _ (writeUdata_normal _ _ _) fun _ =>
+      normal_bind _ _ (writeUdata_normal _ _ _) fun _ => normal_ok _
+  | x :: xs, hb =>
+    normal_bind _ _ (writeEntryBare_normal m k c eo uoff hb x (.inr hm)) fun p =>
+      normal_bind _ _ (writeEntriesBare_normal m k c eo uoff hm xs p.2) fun _ => normal_ok _
+
+theorem writeEntryCoded_normal (k : Kind) (c : Cfg) (eo : EOff) (uoff : Nat) (x : WEntry) :
+    (writeEntryCoded k c eo uoff x).Normal := by
+  cases x with
+  | baseAddress a => exact normal_bind _ _ (writeAddress_normal c a) fun _ => normal_ok _
+  | offsetPair b e x => exact normal_bind _ _ (writeData_normal k c eo uoff x) fun _ => normal_ok _
+  | startEnd b e x => exact normal_bind _ _ (writeAddrPair_normal k c eo uoff b e x) fun _ => normal_ok _
+  | startLength b len x =>
+    exact normal_bind _ _ (writeAddress_normal c b) fun _ =>
+      normal_bind _ _ (writeData_normal k c eo uoff x) fun _ => normal_ok _
+  | defaultLocation x => exact normal_bind _ _ (writeData_normal k c eo uoff x) fun _ => normal_ok _
+
+theorem writeEntriesCoded_normal (k : Kind) (c : Cfg) (eo : EOff) (uoff : Nat) : ∀ (l : WList),
+    (writeEntriesCoded k c eo uoff l).Normal
+  | [] => normal_ok _
+  | x :: xs =>
+    normal_bind _ _ (writeEntryCoded_normal k c eo uoff x) fun _ =>
+      normal_bind _ _ (writeEntriesCoded_normal k c eo uoff xs) fun _ => normal_ok _
+
+theorem writeLists_normal (one : WList → Out Bytes) (h : ∀ l, (one l).Normal) : ∀ (tbl : List WList)
+    (start : Nat), (writeLists one start tbl).Normal
+  | [], _ => normal_ok _
+  | l :: ls, start =>
+    normal_bind _ _ (h l) fun bs =>
+      normal_bind _ _ (writeLists_normal one h ls (start + bs.length)) fun _ => normal_ok _
+
+theorem writeInitialLength_normal (e : Endian) (f : Format) (n : Nat) : (writeInitialLength e f n).Normal := by
+  cases f with
+  | dwarf32 =>
+    simp only [writeInitialLength]; split
+    · exact normal_err _
+    · exact writeUdata_normal _ _ _
+  | dwarf64 => exact normal_bind _ _ (writeUdata_normal _ _ _) fun _ => normal_ok _
+
+theorem writeTable_normal (m : Mode) (k : Kind) (c : Cfg) (eo : EOff) (uoff : Nat) (ub : Bool)
+    (start : Nat) (tbl : List WList) (hm : (marker m c.addrSize).Normal) :
+    (writeTable m k c eo uoff ub start tbl).Normal := by
+  unfold writeTable
+  split
+  · exact normal_ok _
+  · split
+    · exact writeLists_normal _ (fun l => writeEntriesBare_normal m k c eo uoff hm l ub) _ _
+    · split
+      · exact normal_bind _ _ (writeLists_normal _ (writeEntriesCoded_normal k c eo uoff) _ _) fun _ =>
+          normal_bind _ _ (writeInitialLength_normal _ _ _) fun _ => normal_ok _
+      · exact normal_err _
+
+theorem writeUnit_normal (m : Mode) (u : UnitIn) (hm : (marker m u.cfg.addrSize).Normal) :
+    (writeUnit m u).Normal := by
+  unfold writeUnit
+  split
+  · exact normal_err _
+  · refine normal_bind _ _ (writeTable_normal _ _ _ _ _ _ _ _ hm) fun _ =>
+      normal_bind _ _ (writeTable_normal _ _ _ _ _ _ _ _ hm) fun _ =>
+        normal_bind _ _ ?_ fun _ => normal_ok _
+    cases u.lowPc with
+    | none => exact normal_ok _
+    | some a => exact writeAddress_normal _ a
+
 end Gimli.WLists
